@@ -430,7 +430,7 @@ func convertStringToTv(schemaType *sdcpb.SchemaLeafType, v string, ts uint64) (*
 			Value: &sdcpb.TypedValue_StringVal{StringVal: v},
 		}, nil
 	case "uint64", "uint32", "uint16", "uint8":
-		i, err := strconv.ParseUint(v, 10, 64)
+		i, err := strconv.ParseUint(v, 10, intTypeBitSize(schemaType.GetType()))
 		if err != nil {
 			return nil, err
 		}
@@ -439,7 +439,7 @@ func convertStringToTv(schemaType *sdcpb.SchemaLeafType, v string, ts uint64) (*
 			Value:     &sdcpb.TypedValue_UintVal{UintVal: i},
 		}, nil
 	case "int64", "int32", "int16", "int8":
-		i, err := strconv.ParseInt(v, 10, 64)
+		i, err := strconv.ParseInt(v, 10, intTypeBitSize(schemaType.GetType()))
 		if err != nil {
 			return nil, err
 		}
@@ -513,6 +513,19 @@ func convertStringToTv(schemaType *sdcpb.SchemaLeafType, v string, ts uint64) (*
 		return &sdcpb.TypedValue{}, nil
 	}
 	return nil, nil
+}
+
+// intTypeBitSize returns the bit size of the YANG integer types (int8 ... uint64)
+func intTypeBitSize(typeName string) int {
+	switch {
+	case strings.HasSuffix(typeName, "int8"):
+		return 8
+	case strings.HasSuffix(typeName, "int16"):
+		return 16
+	case strings.HasSuffix(typeName, "int32"):
+		return 32
+	}
+	return 64
 }
 
 func getItem(ctx context.Context, s string, cs *sdcpb.SchemaElem_Container, scb SchemaClientBound) (any, bool) {
